@@ -18,6 +18,16 @@ BUILT = {
             "instances under 3 (quick) / 12 (thorough) option configurations; decode must equal what was written",
             E1_NOTE, "DESIGN.md section 6, C01"),
     # id: (category, technique, level text, level note, design ref)
+    "C03": ("model_checking",
+            "bounded-exhaustive enumeration of immediate forms x destination kinds x boundary values x spellings x 3 "
+            "mov-immediate modes on the real assembler, decode-and-compare; plus execution of `mov r, v; ret` for every "
+            "64-bit value of the alphabet",
+            "every immediate-taking form is executed with every representable value of a boundary alphabet (all byte-length "
+            "and sign boundaries, their negatives, seed extras); the decoded immediate must equal the written value modulo "
+            "the operand size and the instruction must have a legal length; generated mov/ret code is called and must "
+            "return v",
+            E1_NOTE + "; code is executed only after its decode check, in a child process",
+            "DESIGN.md section 6, C03"),
     "C04": ("model_checking",
             "bounded-exhaustive input-shape enumeration on the real assembler (all xmm/ymm/mm/BMI2 register tuples, "
             "every memory form over key address shapes), decoded by objdump and compared with a reference ISA model",
